@@ -47,5 +47,13 @@ CLAIMED["C19"] = dict(
     technique="TLA+ reference semantics + transcribed automaton checked by TLC; exhaustive short-string enumeration through the real functions; TLC-evaluated monitors on recorded vectors",
 )
 
+_topic("C04", "Pure part: TLC checks the transcribed RangeSorter.Normalize against the set semantics for ALL sorted lists of <=3 ranges over ids 0..6, and the same laws on the output of the REAL sort+Normalize for every list (all triples in thorough). Stateful part, monitors: a delete hides exactly the union of the listed ranges (clipped to existing ids; hi=0/hi=low = single id) for the requester (soft) or erases it for everyone (hard), never an unlisted id, hard without D degrades to soft, soft needs R, every accepted delete gets the next transaction number, rejected deletes change nothing; {get data} returns exactly the visible messages in [since,before) (newest `limit`), with the stored content and author, to the requester only; {get del} covers exactly the ids deleted for that user.")
+CLAIMED["C20"] = dict(
+    category="model_checking",
+    text="TLC exhausts a scaled codec (Codec.tla with 1- and 2-byte ids: all ids, all pairs, all short texts) for round trips, injectivity, 'invalid text decodes to zero' and the p2p-name laws, and enumerates the message-shape lattice (MsgShapes.tla: every set of <=2-3 optional fields per client/server message kind, pairwise coverage proven); the Go recorders run the REAL Uid codecs, topic-name functions and the JSON vs protobuf paths (pbCliDeserialize after a real wire marshal, pbServSerialize) on boundary/random 64-bit ids, every malformed-text class, id pairs and every generated shape; TLC evaluates the strict (as-intended) laws on the recorded outputs field by field and the as-built conformance.",
+    note="Trusted: stdlib encoding/json, base64, base32 and google.golang.org/protobuf; the JSON<->protobuf field correspondence written in MsgShapes.tla (the recorder refuses to run if a protobuf field of a covered message is unmapped); reverse converters (pbCliSerialize/pbServDeserialize) are recorded but not judged; 64-bit id space is sampled (boundaries + seeded random), the algorithm shape is exhausted at 1-2 bytes.",
+    technique="TLA+ reference codec + message-shape lattice checked by TLC; enumerated vectors through the real codecs and pb/JSON converters; TLC-evaluated monitors on recorded outputs",
+)
+
 _ALL = ["C%02d" % i for i in range(1, 21)]
 NOT_APPLICABLE = {p: "check not built yet in this round (work in progress; the technique applies, see DESIGN.md §5)" for p in _ALL if p not in CLAIMED}
